@@ -259,6 +259,9 @@ func sidesCalls(c *Ctx, S *sidesInfo) {
 				com := ci.Common()
 				callee := ir.Callee(com)
 				pos := P.InstrPos(ci)
+				if _, _, _, isEq := S.eqHelper(callee); isEq {
+					continue // a comparison of its arguments: not a sink
+				}
 				if callee != nil && S.slice[callee] && S.poly[callee] {
 					args := S.callArgs(ci)
 					j, any := sdNone, false
@@ -1132,7 +1135,7 @@ func shortcutBody(c *Ctx, S *sidesInfo, sb *stepBody, tot *scTotals) {
 	}
 	// the comparison(s) of the old with the new link
 	type cmpT struct {
-		bin   *ssa.BinOp
+		bin   ssa.Instruction
 		eqTo  *ssa.BasicBlock
 		neqTo *ssa.BasicBlock
 		iff   *ssa.If
@@ -1140,14 +1143,15 @@ func shortcutBody(c *Ctx, S *sidesInfo, sb *stepBody, tot *scTotals) {
 	var cmps []cmpT
 	for _, b := range fn.Blocks {
 		for _, ins := range b.Instrs {
-			bin, ok := ins.(*ssa.BinOp)
-			if !ok || (bin.Op != token.EQL && bin.Op != token.NEQ) {
+			ec, ok := S.eqCompare(ins)
+			if !ok {
 				continue
 			}
-			if !(isLinkOf(bin.X, oldItem) && isLinkOf(bin.Y, newItem)) && !(isLinkOf(bin.X, newItem) && isLinkOf(bin.Y, oldItem)) {
+			if !(isLinkOf(ec.X, oldItem) && isLinkOf(ec.Y, newItem)) && !(isLinkOf(ec.X, newItem) && isLinkOf(ec.Y, oldItem)) {
 				continue
 			}
-			ifs, other := sdCondIfs(bin)
+			bin := ec.At
+			ifs, other := sdCondIfs(ec.Val)
 			if other || len(ifs) == 0 {
 				c.Undecided(fn, P.InstrPos(bin), "link comparison not used as a branch condition",
 					"the old and the new link are compared, but the result is not (only) used to branch: the rule cannot tell which code runs for equal links")
@@ -1155,7 +1159,7 @@ func shortcutBody(c *Ctx, S *sidesInfo, sb *stepBody, tot *scTotals) {
 			}
 			for _, i := range ifs {
 				ct := cmpT{bin: bin, iff: i.If, eqTo: i.OnTrue, neqTo: i.OnFalse}
-				if bin.Op == token.NEQ {
+				if !ec.Eq {
 					ct.eqTo, ct.neqTo = i.OnFalse, i.OnTrue
 				}
 				cmps = append(cmps, ct)
@@ -2978,17 +2982,17 @@ func stepConsumeReach(S *sidesInfo, sb *stepBody, sd bodySide, blocked map[*ssa.
 	var eqEdges []edge
 	for _, b := range sb.fn.Blocks {
 		for _, ins := range b.Instrs {
-			bin, isB := ins.(*ssa.BinOp)
-			if !isB || (bin.Op != token.EQL && bin.Op != token.NEQ) {
+			ec, isCmp := S.eqCompare(ins)
+			if !isCmp {
 				continue
 			}
-			if !(isLinkOf(bin.X, item) && isLinkOf(bin.Y, other)) && !(isLinkOf(bin.X, other) && isLinkOf(bin.Y, item)) {
+			if !(isLinkOf(ec.X, item) && isLinkOf(ec.Y, other)) && !(isLinkOf(ec.X, other) && isLinkOf(ec.Y, item)) {
 				continue
 			}
-			ifs, _ := sdCondIfs(bin)
+			ifs, _ := sdCondIfs(ec.Val)
 			for _, i := range ifs {
 				to := i.OnTrue
-				if bin.Op == token.NEQ {
+				if !ec.Eq {
 					to = i.OnFalse
 				}
 				eqEdges = append(eqEdges, edge{i.If.Block(), to})
@@ -3947,11 +3951,11 @@ func diffReadsEntryVsLink(c *Ctx, S *sidesInfo, step *ssa.Function) {
 			var cmps []cmpE
 			for _, b := range sb.fn.Blocks {
 				for _, ins := range b.Instrs {
-					bin, isB := ins.(*ssa.BinOp)
-					if !isB || (bin.Op != token.EQL && bin.Op != token.NEQ) {
+					ec, isCmp := S.eqCompare(ins)
+					if !isCmp {
 						continue
 					}
-					x, y := bin.X, bin.Y
+					x, y := ec.X, ec.Y
 					if S.linkOfItem(y, sd.item) {
 						x, y = y, x
 					}
@@ -3963,10 +3967,10 @@ func diffReadsEntryVsLink(c *Ctx, S *sidesInfo, step *ssa.Function) {
 						if root != ssa.Value(pk) {
 							continue
 						}
-						ifs, _ := sdCondIfs(bin)
+						ifs, _ := sdCondIfs(ec.Val)
 						for _, i := range ifs {
 							to := i.OnTrue
-							if bin.Op == token.NEQ {
+							if !ec.Eq {
 								to = i.OnFalse
 							}
 							cmps = append(cmps, cmpE{to, pk})
